@@ -846,3 +846,18 @@ Section CheckerSpec.
     intros C. unfold log2_ok, Rc in L. rewrite C in L. simpl in L. now apply Nat.leb_le.
   Qed.
 End CheckerSpec.
+
+(** * statements as pinned in Props/C37.v *)
+Lemma linear_log2_thm (g : graph) (W : wf g) (R : list nat) :
+  forall (ev : nat -> evaluation) tr res,
+  chain_b g (canon g R) = true -> (forall x, ev x <> Skip) ->
+  bisect g (ancsets g) R ev = Some (tr, res) ->
+  length tr <= Nat.log2_up (S (length (canon g R))).
+Proof.
+  intros ev tr res C NS E.
+  exact (bisect_log2 g W R (chain_lin g W R C) ev NS tr res E).
+Qed.
+
+Lemma checker_sound_thm (g : graph) (R : list nat) : forall bad skip trace r,
+  run_ok g (ancsets g) R bad skip trace r = true -> run_holds g R bad skip trace r.
+Proof. intros bad skip trace r. apply run_ok_sound. Qed.
